@@ -8,7 +8,7 @@ with math/big (a disagreement is a specification bug: exit 2, never a verdict ab
 The thorough tier adds seeded random int32 / decimal cases generated here and judged by the same TLA+ judge.
 """
 import json, random, re
-from lib import driver as D, machine as M
+from lib import driver as D, machine as M, nodetrace as NT
 
 MUTANTS = ["divRoundsDown", "noOverflowCheck", "negMinInt", "modSignOfDivisor",
            "quotient15", "ceilIsFloorPlusOne", "roundTruncates", "roundHalfDown"]
@@ -278,6 +278,11 @@ def run(ctx):
     samples = [{"src": o["text"], "out": o["out"]} for o in obs[:: max(1, len(obs) // 6)]]
     # programs of the whole abstract machine whose last step is one of this property's operations (lib/machine.py)
     verdicts = M.extend(ctx, verdicts, by_id)
+    # node-level trace validation (spec/FPNodeTrace.tla): every node inside the repository's own tests, inside the machine
+    # programs and inside a spread of the cases above is a checked transition; the value laws apply this property's reference
+    # module to the logged values of every node's operands
+    verdicts = NT.extend(ctx, verdicts, by_id, reruns=[
+        (binary, ["run", NT.sample_cases(ctx, ctx.path("cases.ndjson"), 1500 if ctx.tier == "quick" else 12000), ctx.path("obs_traced.ndjson")])])
     return D.finish(ctx, verdicts, by_id, evaluations=3 * len(obs),
                     rule="every pair of the Integer boundary pool (22 values incl. the property's 15) x 6 operators from variables and from literals; "
                          "decimal pool (%s signed values: 0..30 fractional digits, up to 40 significant, ties, int32/int64/2^53 boundaries) squared x 6 operators; "
